@@ -30,6 +30,14 @@ fn snapshot(db: &mut Db) -> String {
             let f = |o: &Out| o.rows().map(|r| canon::rows_bag(r)).unwrap_or_else(|| o.brief());
             s.push_str(&format!("C1={}: index {} scan {}\n", v, f(&a), f(&b)));
         }
+        if db.db.catalog.get_table("T").map(|t| t.has_column("S")).unwrap_or(false) {
+            for v in ["abcX", "abcY", "abc1", "xyzX", "qqq1", "gaa1"] {
+                let a = db.exec(&format!("SELECT * FROM T WHERE S = '{}'", v));
+                let b = db.exec(&format!("SELECT * FROM T WHERE S || '' = '{}'", v));
+                let f = |o: &Out| o.rows().map(|r| canon::rows_bag(r)).unwrap_or_else(|| o.brief());
+                s.push_str(&format!("S={}: index {} scan {}\n", v, f(&a), f(&b)));
+            }
+        }
         db.keep_log = keep;
     }
     s
@@ -216,7 +224,7 @@ fn run_ucase(c: &UCase, rep: &mut Report) {
         let before = snapshot(&mut db);
         let out = db.exec(stmt);
         let after = snapshot(&mut db);
-        rep.count(&format!("uidx{}_{}", c.idx_cols.len(), if stmt.contains("SELECT * FROM S") { "bulk" } else if stmt.starts_with("INSERT") { if c.trigger { "insert_trigger" } else { "insert_values" } } else if stmt.starts_with("UPDATE") { "update" } else { "delete" }));
+        rep.count(&format!("{}{}_{}", if c.prefix_len.is_some() { "prefixidx" } else { "uidx" }, c.idx_cols.len(), if stmt.contains("SELECT * FROM S") { "bulk" } else if stmt.starts_with("INSERT") { if c.trigger { "insert_trigger" } else { "insert_values" } } else if stmt.starts_with("UPDATE") { "update" } else { "delete" }));
         if out.is_err() {
             failed += 1;
         }
@@ -240,9 +248,19 @@ fn main() {
         run_ucase(&c, &mut rep);
         rep.count("multi_unique_index_scenarios");
     }
-    for k in 0..args.n(400, 8000) {
+    for c in prefix_scenarios() {
+        run_ucase(&c, &mut rep);
+        rep.count("prefix_index_scenarios");
+    }
+    for (what, replay) in storage_batch_probe() {
+        rep.fail(FailKind::Oracle, None, &format!("{}: a refused row left earlier rows inserted (or was accepted)", what.split(',').next().unwrap_or("")), &format!("{}\n{}", what, replay));
+    }
+    rep.count("storage_batch_probe");
+    rep.case("storage insert_rows_batch atomicity probe", true);
+    for k in 0..args.n(120, 8000) {
         let mut r = rng.fork();
         run_ucase(&gen_uidx(&mut r, k), &mut rep);
+        run_ucase(&gen_prefix(&mut r, k), &mut rep);
     }
     let rounds = args.n(40, 800);
     for round in 0..rounds {
